@@ -29,8 +29,17 @@ func (vc *VC) ssort(t *SType) string {
 	return vc.reg.specSort(t)
 }
 
+func newLemmaVC(env *Env, d *Decl) *VC {
+	vc := newVCKey(env, nil, d, "lemma:"+d.Pkg+"."+d.Name)
+	return vc
+}
+
 func newVC(env *Env, fn *ssa.Function, d *Decl) *VC {
-	vc := &VC{env: env, fn: fn, key: funcKey(fn), decl: d,
+	return newVCKey(env, fn, d, funcKey(fn))
+}
+
+func newVCKey(env *Env, fn *ssa.Function, d *Decl, key string) *VC {
+	vc := &VC{env: env, fn: fn, key: key, decl: d,
 		compSort: map[string]string{}, compInit: map[string]Term{},
 		vals: map[ssa.Value]Term{}, tuples: map[ssa.Value][]Term{}, lvs: map[ssa.Value]*LV{}, rangeOf: map[ssa.Value]*rangeInfo{},
 		reach: map[*ssa.BasicBlock]Term{}, exit: map[*ssa.BasicBlock]*State{}, edgeCond: map[[2]int]Term{},
@@ -39,6 +48,60 @@ func newVC(env *Env, fn *ssa.Function, d *Decl) *VC {
 		uninterp: map[string]string{}}
 	vc.reg = newSortReg(func(s string) { vc.decls = append(vc.decls, s) })
 	return vc
+}
+
+// generateLemma: a lemma is a contract without code: its ensures clauses are obligations under its
+// requires clauses, for all values of its parameters.
+func (vc *VC) generateLemma() (err error) {
+	defer func() {
+		if r := recover(); r != nil {
+			switch e := r.(type) {
+			case unsupportedErr:
+				err = fmt.Errorf("%s: %v", vc.key, e)
+			case error:
+				err = fmt.Errorf("%s: %v", vc.key, e)
+			default:
+				panic(r)
+			}
+			vc.failed = err
+		}
+	}()
+	d := vc.decl
+	for _, c := range d.Clauses {
+		switch c.Kind {
+		case "arith":
+			vc.arith = c.Str
+		case "float":
+			vc.floatMode = c.Str
+		}
+	}
+	vc.entry = &State{cells: map[*ssa.Alloc]Term{}, comps: map[string]Term{}}
+	vc.cur = vc.entry
+	vc.curReach = "true"
+	vc.ghostLocals = map[string]*SType{}
+	ctx := vc.ctx(vc.cur, vc.entry)
+	for _, p := range d.Params {
+		pt := vc.resolveType(p.Type, ctx.pkg, nil)
+		t := vc.fresh("p."+p.Name, vc.ssort(pt))
+		vc.params[p.Name] = binding{t: t, typ: pt}
+		if isGo(pt) {
+			vc.assumeValid(t, pt.Go)
+		}
+		vc.witness = append(vc.witness, namedTerm{p.Name, t, vc.ssort(pt)})
+	}
+	ctx = vc.ctx(vc.cur, vc.entry)
+	for _, c := range d.Clauses {
+		if c.Kind == "requires" {
+			vc.assumeGlobal(ctx.formula(c.E))
+		}
+	}
+	vc.oblige("cover", "precondition-satisfiable", "false", token.NoPos).Expect = "fail"
+	for i, c := range d.Clauses {
+		if c.Kind == "ensures" {
+			vc.oblige("ensures", labelOr(c.Label, i), ctx.formula(c.E), token.NoPos)
+		}
+	}
+	return nil
 }
 
 // generate builds all obligations of the function. Panics of kind unsupportedErr / error are
@@ -98,6 +161,10 @@ func (vc *VC) generate() (err error) {
 		vc.vals[fv] = t
 		vc.params[fv.Name()] = binding{t: t, typ: goT(fv.Type())}
 		vc.assumeValid(t, fv.Type())
+		if _, isPtr := fv.Type().Underlying().(*types.Pointer); isPtr {
+			// a free variable is the address of a captured variable: never nil
+			vc.assumeGlobal(app(">", t, "0"))
+		}
 	}
 	res := fn.Signature.Results()
 	if len(d.Results) != 0 && len(d.Results) != res.Len() {
@@ -154,6 +221,11 @@ func (vc *VC) generate() (err error) {
 	}
 	if vc.rets == 0 {
 		return fmt.Errorf("%s: no return reached", vc.key)
+	}
+	for _, c := range d.Clauses {
+		if (c.Kind == "assert" || (c.Kind == "ghost" && (c.Anchor == "before-call" || c.Anchor == "after-call"))) && !vc.usedAnchors[c] {
+			return fmt.Errorf("%s#binding: the contract anchors code at call %s#%d, which does not exist in the function", vc.key, c.Callee, c.CallK)
+		}
 	}
 	// vacuity: some return must be reachable under the precondition and all assumptions made
 	vc.curBlock = nil
@@ -409,9 +481,19 @@ func deref(t types.Type) types.Type { return t.Underlying().(*types.Pointer).Ele
 
 func (vc *VC) loopHead(li *loopInfo) {
 	pos := vc.loopPos(li)
+	for _, in := range li.header.Instrs {
+		if nx, ok := in.(*ssa.Next); ok {
+			if rg, ok := nx.Iter.(*ssa.Range); ok {
+				if _, isMap := rg.X.Type().Underlying().(*types.Map); isMap {
+					li.seen = "R." + rg.Name() + ".seen"
+				}
+			}
+		}
+	}
 	// 1. invariants hold on entry
 	ctx := vc.ctx(vc.cur, vc.entry)
 	ctx.loopScope = pos
+	ctx.loopSeen = li.seen
 	for i, c := range li.invs {
 		vc.oblige("inv-init", fmt.Sprintf("%d.%s", li.ordinal, labelOr(c.Label, i)), ctx.formula(c.E), pos)
 	}
@@ -431,6 +513,7 @@ func (vc *VC) loopHead(li *loopInfo) {
 		}
 	}
 	pre := vc.cur.clone()
+	var havoced []string
 	for _, c := range comps {
 		s, ok := vc.compSort[c]
 		if !ok {
@@ -444,6 +527,10 @@ func (vc *VC) loopHead(li *loopInfo) {
 		}
 		vc.cur.comps[c] = vc.fresh(compPrefix(c), s)
 		vc.assumeCompValid(vc.cur.comps[c], s, false)
+		havoced = append(havoced, c)
+	}
+	for _, c := range havoced {
+		vc.assumeRefsValid(c, vc.cur.comps[c], vc.next(vc.cur), false)
 	}
 	// written loop-modifies clauses restrict the havoc (frame of the loop): everything allocated
 	// before the loop and not listed is unchanged
@@ -452,6 +539,7 @@ func (vc *VC) loopHead(li *loopInfo) {
 	// 3. assume invariants
 	ctx = vc.ctx(vc.cur, vc.entry)
 	ctx.loopScope = pos
+	ctx.loopSeen = li.seen
 	for _, c := range li.invs {
 		vc.assume(ctx.formula(c.E))
 	}
@@ -480,6 +568,7 @@ func (vc *VC) backEdge(li *loopInfo, cond Term) {
 	vc.curReach = vc.define("back", sBool, and(vc.curReach, cond))
 	ctx := vc.ctx(vc.cur, vc.entry)
 	ctx.loopScope = pos
+	ctx.loopSeen = li.seen
 	for i, c := range li.invs {
 		vc.oblige("inv-pres", fmt.Sprintf("%d.%s", li.ordinal, labelOr(c.Label, i)), ctx.formula(c.E), pos)
 	}
@@ -561,6 +650,14 @@ func (vc *VC) loopWrites(li *loopInfo) ([]*ssa.Alloc, []string) {
 				if x.Op == token.ARROW {
 					compSet["H.chancnt"] = true
 					compSet["G.var.World"] = true
+				}
+			case *ssa.Next:
+				if rg, ok := x.Iter.(*ssa.Range); ok {
+					if _, isMap := rg.X.Type().Underlying().(*types.Map); isMap {
+						compSet["R."+rg.Name()+".seen"] = true
+					} else {
+						compSet["R."+rg.Name()+".pos"] = true
+					}
 				}
 			case *ssa.Range:
 				// range state is a value
@@ -1678,7 +1775,10 @@ func (vc *VC) convFns() {
 		d += fmt.Sprintf("(define-fun ys.f2i.ok ((x Float64)) Bool (and (not (fp.isNaN x)) (not (fp.isInfinite x)) (fp.lt x %s) (fp.geq x (fp.neg %s))))\n", two63, two63)
 		d += "(assert (forall ((x Float64)) (! (=> (ys.f2i.ok x) (and (fp.eq (ys.i2f (ys.f2i x)) (fp.roundToIntegral RTZ x)) (<= (- 9223372036854775808) (ys.f2i x)) (<= (ys.f2i x) 9223372036854775807))) :pattern ((ys.f2i x)))))\n"
 		d += "(assert (forall ((i Int)) (! (and (not (fp.isNaN (ys.i2f i))) (not (fp.isInfinite (ys.i2f i))) (not (and (fp.isZero (ys.i2f i)) (fp.isNegative (ys.i2f i)))) (= (fp.isZero (ys.i2f i)) (= i 0))) :pattern ((ys.i2f i)))))\n"
-		d += fmt.Sprintf("(assert (forall ((i Int)) (! (=> (and (<= (- 9007199254740992) i) (<= i 9007199254740992)) (= (ys.f2i (ys.i2f i)) i)) :pattern ((ys.i2f i)))))")
+		d += fmt.Sprintf("(assert (forall ((i Int)) (! (=> (and (<= (- 9007199254740992) i) (<= i 9007199254740992)) (= (ys.f2i (ys.i2f i)) i)) :pattern ((ys.i2f i)))))\n")
+		// truncation does not increase the magnitude
+		two53 := floatLit(9007199254740992.0)
+		d += fmt.Sprintf("(assert (forall ((x Float64)) (! (=> (and (ys.f2i.ok x) (fp.leq (fp.abs x) %s)) (and (<= (- 9007199254740992) (ys.f2i x)) (<= (ys.f2i x) 9007199254740992))) :pattern ((ys.f2i x)))))", two53)
 	} else {
 		d += "(declare-fun ys.f2i.ok (Float64) Bool)"
 	}
